@@ -5,6 +5,7 @@ CONSTANTS
   FullNode = FALSE
   Cap = 2
   Weaken = "noPastGuard"
+  GapFix = FALSE
   Direct = TRUE
   Timeouts = FALSE
 PROPERTY NoRerunCtl
